@@ -301,7 +301,7 @@ def main(tier, replay=None):
         except ValueError:
             maxc[n] = 0
     big = tier != "quick"
-    S = 4 if big else 1          # scale
+    S = 30 if big else 1         # scale
 
     # 3. cases:  each = dict(impl=<line>, model=<line or None>, kind, spec)   spec is what the python oracle needs
     cases = []
@@ -327,6 +327,15 @@ def main(tier, replay=None):
             add("int.read", "int.read.%s %d %s" % (rng.choice(["op", "zring"]), old, hx(t)), "int.read %d %s" % (old, hx(t)), old=old, text=t)
         if i % 2 == 0:
             add("int.strrt", "int.strrt %d" % z, "int.write %d" % z, z=z)
+    if big:      # every integer of up to four digits, with every tail
+        for z in range(-10100, 10101):
+            tail = TAILS_ANY[z % len(TAILS_ANY)]
+            add("int.rt", "int.rt.op %d 0 %s" % (z, hx(tail)), "int.rt %d 0 %s" % (z, hx(tail)), z=z, old=0, tail=tail, variant="op")
+        for n in range(-60, 61):
+            for d in range(1, 41):
+                if math.gcd(n, d) == 1:
+                    tail = TAILS_ANY[(n * 41 + d) % len(TAILS_ANY)]
+                    add("rat.rt", "rat.rt.op %d %d %s" % (n, d, hx(tail)), "rat.rt %d %d %s" % (n, d, hx(tail)), n=n, d=d, tail=tail)
     for i in range(260 * S):
         t = adversarial(rng)
         if i < 10:
@@ -419,6 +428,8 @@ def main(tier, replay=None):
                     z = -rng.below(p)
                 else:
                     z = gen_int(rng)
+                if i < 4:
+                    z = [0, 1, p - 1, p // 2 + 1][i]
                 z = z % p                  # the element is built by init(e, Integer z): other inputs are C04's subject
                 tails = TAILS_DBL if reader == "dbl" else TAILS_ANY
                 tail = rng.choice(tails)
@@ -487,6 +498,10 @@ def main(tier, replay=None):
                 if i % 3 == 0:
                     t = rng.choice(["", " ", "-"]) + str(rng.bits(rng.range(1, 2 * N))) + rng.choice(["", " ", "z"])
                 add(sg + ".read", "%s.read %d %d %s" % (sg, K, hexm, hx(t)), "%s.read %d %d %s" % (sg, K, hexm, hx(t)), K=K, hex=hexm, text=t, sg=sg)
+    # ---- indeterminate names
+    for var in VARS + ["a", "X_1", "lambda", "Z9"]:
+        for tail in ["", " ", "\n", " +", "\tY"]:
+            add("indet.rt", "indet.rt %s %s" % (hx(var), hx(tail)), None, var=var, tail=tail)
     # ---- polynomials
     for name in POLY_RINGS:
         kind, reader, _ = RINGS[name]
@@ -830,6 +845,10 @@ def judge(chk, c, got, mline, gfq_texts):
             gfq_texts.setdefault((sp["w"], sp["p"], sp["k"]), {})[sp["e"]] = t
         if not ok:
             fail("GFqDom::read(write)", "digit-tail" if sp["tail"][:1].isdigit() else "roundtrip", "numeral < q, read back to the same element, rest = tail")
+    elif kind == "indet.rt":
+        exp = [hx(sp["var"]), "1", hx(sp["var"]), hx(sp["tail"]), st(sp["tail"] == "", False)]
+        if got != exp:
+            fail("operator>>(Indeter)(operator<<)", "name", " ".join(exp))
     elif kind in ("ru.rt", "ri.rt"):
         K, a, hexm = sp["K"], sp["a"], sp["hex"]
         N = 1 << K
